@@ -20,7 +20,7 @@ Terms are nested tuples (hashable):
 """
 import ast
 
-from .core import (Interp, TupleV, Closure, FuncRef, ClassRef, ExtRef, ObjV, BoundMethod, SuperV, SliceV, Ctx)
+from .core import (Interp, TupleV, Closure, FuncRef, ClassRef, ExtRef, ObjV, BoundMethod, SuperV, SliceV, Ctx, PartialV)
 from .loader import Inconclusive, norm, dotted_of
 
 NONE = ("const", None)
@@ -55,6 +55,8 @@ def T(v):
         return ("closure", v.node.lineno, getattr(v.node, "col_offset", 0))
     if isinstance(v, FuncRef):
         return ("fn", v.func.qname)
+    if isinstance(v, PartialV):
+        return ("partial", T(v.fv), tuple(T(a) for a in v.args), tuple(sorted((k, T(x)) for k, x in v.kwargs.items())))
     if isinstance(v, ExtRef):
         return ("extref", v.dotted)
     if isinstance(v, ClassRef):
@@ -169,6 +171,7 @@ class Fact:
 
 class Sym(Interp):
     name = "SYM"
+    model_partial = True
 
     def __init__(self, prog, inline=None):
         super().__init__(prog)
